@@ -232,17 +232,23 @@ class Chunk:
         # Always partition the subrun spans, also when the chunk does not start / end on a
         # subrun border (e.g. the remainder after a cut in the gap between two subruns):
         # pieces that keep the unsplit spans cannot be concatenated again later.
+        subruns_first_chunk, subruns_second_chunk = _split_runs_in_chunk(self.subruns, t)
+        superrun_first_chunk, superrun_second_chunk = _split_runs_in_chunk(self.superrun, t)
+        # When splitting at the edge nothing is cut off and one piece is the whole chunk.
+        # The partition drops zero-length spans, so for a zero-duration chunk (or one that
+        # only touches a run at its edge) that piece would lose its bookkeeping: keep it.
+        # (Only when the partition left both pieces empty-handed: a span that went to the
+        # other piece, e.g. of a label wider than the chunk, must not be kept on both.)
         if t == self.end:
-            # Nothing is cut off: the left piece is the whole chunk and keeps all of its
-            # bookkeeping, including zero-length spans (zero-duration chunks)
-            subruns_first_chunk, subruns_second_chunk = self.subruns, None
-            superrun_first_chunk, superrun_second_chunk = self.superrun, None
+            if subruns_first_chunk is None and subruns_second_chunk is None:
+                subruns_first_chunk = self.subruns
+            if superrun_first_chunk is None and superrun_second_chunk is None:
+                superrun_first_chunk = self.superrun
         elif t == self.start:
-            subruns_first_chunk, subruns_second_chunk = None, self.subruns
-            superrun_first_chunk, superrun_second_chunk = None, self.superrun
-        else:
-            subruns_first_chunk, subruns_second_chunk = _split_runs_in_chunk(self.subruns, t)
-            superrun_first_chunk, superrun_second_chunk = _split_runs_in_chunk(self.superrun, t)
+            if subruns_first_chunk is None and subruns_second_chunk is None:
+                subruns_second_chunk = self.subruns
+            if superrun_first_chunk is None and superrun_second_chunk is None:
+                superrun_second_chunk = self.superrun
         # If the superrun is split and the fragment cover only one run,
         # you need to recover the run_id
         if superrun_first_chunk is None or len(superrun_first_chunk) == 1:
